@@ -41,7 +41,7 @@ def orders_numeric(X):
 
 
 def no_self_loops(X):
-    return forall('any', lambda n: not X.has_edge(n, n))
+    return forall(X.edges, lambda u, v: not same(u, v))
 
 
 def is_its(I, G, H, store, ignore):
@@ -94,7 +94,8 @@ FUNCTIONS.update({
                         "forall(done, lambda n: forall(range(5), lambda i: NA[i] in ITS.nodes[n] and ITS.nodes[n][NA[i]] == ("
                         "       (tup_of(G, n)[i], tup_of(H, n)[i]) if store else tup_of(G, n)[i])))"]},
             4: {"modifies": ["ITS.nodes", "ITS.nattr", "ITS.adj", "ITS.eattr"],
-                "inv": ["forall(('any', 'any'), lambda u, v: ITS.has_edge(u, v) == ((u, v) in done))",
+                "inv": ["forall(edge_keys, lambda p, q: not same(p, q) and (G.has_edge(p, q) or H.has_edge(p, q)))",
+                        "forall(('any', 'any'), lambda u, v: ITS.has_edge(u, v) == ((u, v) in done))",
                         "forall(ITS.edges, lambda u, v: 'order' in ITS[u][v] and ITS[u][v]['order'] == (ord_of(G, u, v), ord_of(H, u, v)))",
                         "forall('any', lambda n: ITS.has_node(n) == at_entry(ITS.has_node(n)))",
                         "forall(ITS.nodes, lambda n: same(ITS.nodes[n], at_entry(ITS.nodes[n])))"]},
@@ -107,6 +108,80 @@ FUNCTIONS.update({
         "requires": ["no_self_loops(G)", "no_self_loops(H)", "orders_numeric(G)", "orders_numeric(H)"],
         "modifies": [],
         "ensures": ["is_fresh(result)", "is_its(result, G, H, store, ignore_aromaticity)"],
+    },
+})
+
+LABELS = ["element", "aromatic", "hcount", "charge"]
+
+
+def its_shape(I):
+    """what its_decompose needs of its argument (all of it is established by construct)"""
+    return forall(I.nodes, lambda n: "typesGH" in I.nodes[n] and tuple_pair(I.nodes[n]["typesGH"])
+                  and len(I.nodes[n]["typesGH"][0]) == 5 and len(I.nodes[n]["typesGH"][1]) == 5) \
+        and forall(I.edges, lambda u, v: "order" in I[u][v] and pair_of_numbers(I[u][v]["order"]))
+
+
+def tuple_pair(t):
+    return isinstance(t, tuple) and len(t) == 2 and isinstance(t[0], tuple) and isinstance(t[1], tuple)
+
+
+def side_of(S, I, side):
+    """S is side `side` (0 = reactants, 1 = products) read back from the ITS I"""
+    return (
+        forall('any', lambda n: S.has_node(n) == I.has_node(n))
+        and forall(S.nodes, lambda n: forall(range(4), lambda i: LABELS[i] in S.nodes[n]
+                                             and S.nodes[n][LABELS[i]] == I.nodes[n]["typesGH"][side][i]))
+        and forall(S.nodes, lambda n: S.nodes[n].get("atom_map") == n)
+        and forall(('any', 'any'), lambda u, v: S.has_edge(u, v) == (I.has_edge(u, v) and I[u][v]["order"][side] > 0))
+        and forall(S.edges, lambda u, v: S[u][v].get("order") == I[u][v]["order"][side]))
+
+
+def mol_graph(X):
+    """a molecular graph as MolToGraph produces it: the four labels on every atom, a positive numeric order on every bond"""
+    return forall(X.nodes, lambda n: forall(range(4), lambda i: LABELS[i] in X.nodes[n])) \
+        and forall(X.edges, lambda u, v: "order" in X[u][v] and is_number(X[u][v]["order"]) and X[u][v]["order"] > 0) \
+        and no_self_loops(X)
+
+
+FUNCTIONS.update({
+    DEC + "::its_decompose": {
+        "params": {"its_graph": "obj:Graph", "nodes_share": "const:'typesGH'", "edges_share": "const:'order'"},
+        "returns": "tuple[obj:Graph,obj:Graph]",
+        "requires": ["its_shape(its_graph)"],
+        "modifies": [],
+        "ensures": ["is_fresh(result[0])", "is_fresh(result[1])", "result[0] is not result[1]",
+                    "side_of(result[0], its_graph, 0)", "side_of(result[1], its_graph, 1)"],
+        "loops": {
+            1: {"modifies": ["G.nodes", "G.nattr", "H.nodes", "H.nattr"],
+                "inv": ["forall('any', lambda n: G.has_node(n) == (n in done) and H.has_node(n) == (n in done))",
+                        "forall(done, lambda n: forall(range(4), lambda i: LABELS[i] in G.nodes[n] and "
+                        "       G.nodes[n][LABELS[i]] == its_graph.nodes[n]['typesGH'][0][i] and LABELS[i] in H.nodes[n] and "
+                        "       H.nodes[n][LABELS[i]] == its_graph.nodes[n]['typesGH'][1][i]))",
+                        "forall(done, lambda n: G.nodes[n].get('atom_map') == n and H.nodes[n].get('atom_map') == n)",
+                        "forall(('any', 'any'), lambda u, v: not G.has_edge(u, v) and not H.has_edge(u, v))"]},
+            2: {"modifies": ["G.nodes", "G.nattr", "G.adj", "G.eattr", "H.nodes", "H.nattr", "H.adj", "H.eattr"],
+                "inv": ["forall(('any', 'any'), lambda u, v: G.has_edge(u, v) == ((u, v) in done and its_graph[u][v]['order'][0] > 0))",
+                        "forall(('any', 'any'), lambda u, v: H.has_edge(u, v) == ((u, v) in done and its_graph[u][v]['order'][1] > 0))",
+                        "forall(G.edges, lambda u, v: G[u][v].get('order') == its_graph[u][v]['order'][0])",
+                        "forall(H.edges, lambda u, v: H[u][v].get('order') == its_graph[u][v]['order'][1])",
+                        "forall('any', lambda n: G.has_node(n) == its_graph.has_node(n) and H.has_node(n) == its_graph.has_node(n))",
+                        "forall(its_graph.nodes, lambda n: same(G.nodes[n], at_entry(G.nodes[n])) and same(H.nodes[n], at_entry(H.nodes[n])))"]},
+        },
+    },
+    # ---------------------------------------------------------------- lemma: decomposing the ITS returns the two sides
+    "lemma::round_trip": {
+        "params": {"G": "obj:Graph", "H": "obj:Graph", "I": "obj:Graph", "G2": "obj:Graph", "H2": "obj:Graph",
+                   "store": "bool"},
+        "requires": ["mol_graph(G)", "mol_graph(H)", "forall('any', lambda n: G.has_node(n) == H.has_node(n))",
+                     "is_its(I, G, H, store, False)", "side_of(G2, I, 0)", "side_of(H2, I, 1)"],
+        "ensures": [
+            "forall('any', lambda n: G2.has_node(n) == G.has_node(n) and H2.has_node(n) == H.has_node(n))",
+            "forall(G.nodes, lambda n: forall(range(4), lambda i: G2.nodes[n][LABELS[i]] == G.nodes[n][LABELS[i]]))",
+            "forall(H.nodes, lambda n: forall(range(4), lambda i: H2.nodes[n][LABELS[i]] == H.nodes[n][LABELS[i]]))",
+            "forall(('any', 'any'), lambda u, v: G2.has_edge(u, v) == G.has_edge(u, v) and H2.has_edge(u, v) == H.has_edge(u, v))",
+            "forall(G.edges, lambda u, v: G2[u][v].get('order') == G[u][v]['order'])",
+            "forall(H.edges, lambda u, v: H2[u][v].get('order') == H[u][v]['order'])",
+        ],
     },
 })
 
